@@ -1543,6 +1543,10 @@ class ModelBuilder:
                     # Store working hours for all scenarios
                     for scIdx in range(obj.project.scenarioCount()):
                         obj[("workinghours", scIdx)] = wh
+                        # Hours written on the resource itself replace a shift inherited from
+                        # its group (onShift looks at "shifts" first)
+                        if prop_type == "resource" and not obj.provided("shifts", scIdx):
+                            obj[("shifts", scIdx)] = None
                 elif key == "workinghours_shift":
                     # Resource references a shift for its working hours
                     # Lookup the shift and copy its working hours
